@@ -757,7 +757,10 @@ func (e *authEnv) tfPhase() {
 // tfHookThenExportImport: the directed sequence for the one thing the tokenfactory genesis does not carry — a live admin points its
 // denom's before-send hook at the history's contract, then the module is exported and imported.
 func (e *authEnv) tfHookThenExportImport(w *tfWorld) {
-	st := e.r.Intn(len(w.denoms))
+	st := 0
+	if len(w.denoms) > 0 {
+		st = e.r.Intn(len(w.denoms))
+	}
 	for i := range w.denoms {
 		d := w.denoms[(st+i)%len(w.denoms)]
 		cur := w.ref[d.canon()]
